@@ -106,7 +106,9 @@ Section Bisim.
         | Some (inl r) => r
         | _ =>
             let next := flat_map (fun r => match r with inr l => l | inl _ => [] end) results in
-            match next with [] => None | _ => find_mismatch fuel' next end
+            (* the frontier is capped: with hidden state in the implementation nearly every pair stays
+               unmatched and the search would grow by the size of the alphabet at every level *)
+            match next with [] => None | _ => find_mismatch fuel' (firstn 4096 next) end
         end
     end.
 
